@@ -391,6 +391,28 @@ func TestC02(t *testing.T) {
 					}
 				}
 
+				// (3a) a frame whose length byte and payload were altered - zero bytes appended, length raised - while it still
+				// carries the checksum of the frame it was made from: that value is not the CRC over length..payload+CRC_EXTRA
+				if version == 2 && form == 0 && len(s.Payload) < mi.Layout.SizeExt {
+					for _, k := range []int{1, 2, mi.Layout.SizeExt - len(s.Payload)} {
+						if k <= 0 || len(s.Payload)+k > 255 {
+							continue
+						}
+						pad := *s
+						pad.Payload = append(append([]byte(nil), s.Payload...), make([]byte, k)...)
+						if pad.Signed {
+							// the signature is made right for the altered frame: only the checksum is stale
+							pad.Signature = ref.SignatureOfWire(nil, ref.Serialize(&pad))
+						}
+						right := pad
+						ref.Seal(&right, mi.Layout.CRCExtra, nil)
+						if right.Checksum != pad.Checksum {
+							rep.Count("zero_padded_frames_with_stale_checksum", 1)
+							runStream(mi, "zero-padded-stale-crc", append(ref.Serialize(&pad), sentinel...), 0)
+						}
+					}
+				}
+
 				// (3) soundness: systematic damage
 				flipBytes := len(wire)
 				if !vh.Thorough() && flipBytes > 64 && form != 0 {
